@@ -2,8 +2,8 @@
    reencode (prettify data) composed with the wire round trip of C25. *)
 From Coq Require Import List Bool Arith NArith ZArith Lia.
 From MV Require Import Base.Bytes Model.Strutils Model.WsUtf8 Model.DnsNames Model.DnsMessage
-  Model.Url Gen.DnsEnums Model.Contentviews Model.ContentviewsDns
-  Proofs.UrlDec Proofs.DnsNamesRT Proofs.DnsMessageRT Proofs.DnsC25 Proofs.ContentviewsSafe.
+  Gen.DnsEnums Model.Contentviews Model.ContentviewsDns
+  Proofs.ContentviewsDec Proofs.DnsNamesRT Proofs.DnsMessageRT Proofs.DnsC25 Proofs.ContentviewsSafe.
 Import ListNotations.
 Local Open Scope N_scope.
 
@@ -239,17 +239,20 @@ Proof. eexists. split; [vm_compute; reflexivity | discriminate]. Qed.
 (* ---------- the view ---------- *)
 Variable yaml_dumps : mjson -> text.
 Variable yaml_loads : text -> option mjson.
-Hypothesis yaml_roundtrip : forall j, yaml_loads (yaml_dumps j) = Some j.
-(* ruamel escapes every non-printable character: the dump has nothing the filter replaces *)
-Hypothesis yaml_printable : forall j c, In c (yaml_dumps j) -> replaced true c = false.
+(* the contract of the YAML library for one document: what is dumped loads back to the same
+   value, and (ruamel escapes every non-printable character) the dump has nothing that the
+   final filter of prettify_message replaces *)
+Definition yaml_ok (j : mjson) : Prop :=
+  yaml_loads (yaml_dumps j) = Some j
+  /\ forall c, In c (yaml_dumps j) -> replaced true c = false.
 
 Notation dns_prettify := (dns_prettify lib_enc yaml_dumps).
 Notation dns_reencode := (dns_reencode lib_dec yaml_loads).
 
-Lemma yaml_unfiltered c1 j : ecc c1 (yaml_dumps j) = yaml_dumps j.
+Lemma yaml_unfiltered c1 j : yaml_ok j -> ecc c1 (yaml_dumps j) = yaml_dumps j.
 Proof.
-  apply ecc_id. apply forallb_forall. intros c Hc. apply negb_true_iff.
-  pose proof (yaml_printable j c Hc) as P. unfold replaced in *. destruct c1; [exact P|].
+  intros [_ yaml_printable]. apply ecc_id. apply forallb_forall. intros c Hc. apply negb_true_iff.
+  pose proof (yaml_printable c Hc) as P. unfold replaced in *. destruct c1; [exact P|].
   apply orb_false_iff in P. destruct P as [P _]. rewrite P. reflexivity.
 Qed.
 
@@ -258,13 +261,16 @@ Definition strip (tcp : bool) (b : bytes) : bytes := if tcp then skipn 2 b else 
 (* what re-encoding the (filtered) rendering gives, in terms of the decoded message *)
 Lemma reencode_prettify c1 tcp data m :
   DnsMessage.unpack (strip tcp data) = Ok m -> Forall rr_ok (all_rrs m) ->
+  yaml_ok (m_to_json (msg_size m) m) ->
   exists t, dns_prettify tcp data = inl t /\
     dns_reencode tcp (ecc c1 t) =
       match pack_message (clear_reserved m) tcp with Ok b => Some b | Err _ => None end.
 Proof.
-  intros U F. unfold ContentviewsDns.dns_prettify. cbv zeta. unfold strip in U. rewrite U.
-  eexists. split; [reflexivity|]. unfold ContentviewsDns.dns_reencode.
-  rewrite yaml_unfiltered, yaml_roundtrip, (message_json_roundtrip _ m F). reflexivity.
+  intros U F Y. unfold strip in U.
+  assert (dns_prettify tcp data = inl (yaml_dumps (m_to_json (msg_size m) m))) as P.
+  { unfold ContentviewsDns.dns_prettify. cbv zeta. destruct tcp; cbv iota in U |- *; rewrite U; reflexivity. }
+  eexists. split; [exact P|]. unfold ContentviewsDns.dns_reencode.
+  rewrite (yaml_unfiltered _ _ Y). destruct Y as [Y _]. rewrite Y, (message_json_roundtrip _ m F). reflexivity.
 Qed.
 
 Lemma pack_u16_ok n : n < 65536 -> pack_u16 n = Ok (put_u16be n).
@@ -277,13 +283,14 @@ Proof. intro H. unfold pack_u16. apply N.ltb_lt in H. rewrite H. reflexivity. Qe
 Theorem dns_view_roundtrip c1 tcp data m :
   DnsMessage.unpack (strip tcp data) = Ok m ->
   m_reserved m = 0 -> Forall rr_ok (all_rrs m) ->
+  yaml_ok (m_to_json (msg_size m) m) ->
   wf_msg m -> Forall rdata_guard (all_rrs m) ->
   (tcp = true -> forall b, packed m = Ok b -> N.of_nat (length b) < 65536) ->
   exists t out, dns_prettify tcp data = inl t /\ dns_reencode tcp (ecc c1 t) = Some out
     /\ DnsMessage.unpack (strip tcp out) = Ok m.
 Proof.
-  intros U R F W G L.
-  destruct (reencode_prettify c1 tcp data m U F) as (t & P & E).
+  intros U R F Y W G L.
+  destruct (reencode_prettify c1 tcp data m U F Y) as (t & P & E).
   rewrite (clear_reserved_id m R) in E.
   destruct (reencode_partial _ m U W G) as (b' & Pk & Un).
   exists t. unfold pack_message in E. rewrite Pk in E. cbn [bind] in E. destruct tcp.
@@ -306,18 +313,36 @@ Definition good_query : bytes :=
   [x00; x2a; x01; x00; x00; x01; x00; x00; x00; x00; x00; x00; x03; x64; x6e; x73; x06; x67; x6f; x6f;
    x67; x6c; x65; x00; x00; x01; x00; x01].
 
-Example toy_lib_ok : forall t d, rdata_ok toy_enc toy_dec T_A d.
+Example toy_lib_ok : forall d, rdata_ok toy_enc toy_dec T_A d.
 Proof.
-  intros t d. unfold rdata_ok. change (is_lib_type T_A) with true. cbn [toy_dec]. split.
+  intros d. unfold rdata_ok. change (is_lib_type T_A) with true. cbn [toy_dec]. split.
   - intros j E. unfold toy_enc in E. destruct ((T_A =? T_A) && negb (length d =? 4)%nat); [discriminate|].
     inversion E. reflexivity.
   - reflexivity.
 Qed.
 
-Lemma good_query_decodes :
-  exists m, DnsMessage.unpack good_query = Ok m /\ m_reserved m = 0 /\ length (m_questions m) = 1%nat
-    /\ wf_msg m /\ Forall rdata_guard (all_rrs m) /\ Forall (rr_ok toy_enc toy_dec) (all_rrs m).
+Definition good_msg : message :=
+  mkMsg 42 true 0 false false true false 0 0 [mkQ [x64; x6e; x73; x2e; x67; x6f; x6f; x67; x6c; x65] 1 1] [] [] [].
+Definition toy_dumps (j : mjson) : text := [105; 100; 58; 32; 52; 50; 10].
+Definition toy_loads (t : text) : option mjson := Some (m_to_json toy_enc 0 good_msg).
+
+(* every hypothesis of dns_view_roundtrip holds of a real query (dns.google A, id 42), over UDP
+   and with a length prefix, and the conclusion is a 28-byte message equal to the input *)
+Lemma good_query_instance :
+  DnsMessage.unpack good_query = Ok good_msg /\ m_reserved good_msg = 0
+  /\ Forall (rr_ok toy_enc toy_dec) (all_rrs good_msg)
+  /\ yaml_ok toy_dumps toy_loads (m_to_json toy_enc (msg_size good_msg) good_msg)
+  /\ wf_msg good_msg /\ Forall rdata_guard (all_rrs good_msg)
+  /\ (forall b, packed good_msg = Ok b -> N.of_nat (length b) < 65536)
+  /\ dns_reencode toy_dec toy_loads false (ecc false (toy_dumps (m_to_json toy_enc 0 good_msg))) = Some good_query.
 Proof.
-  eexists. split; [vm_compute; reflexivity|]. split; [reflexivity|]. split; [reflexivity|].
-  split; [apply wf_msgb_ok; vm_compute; reflexivity|]. split; constructor.
+  split; [vm_compute; reflexivity|]. split; [reflexivity|]. split; [constructor|]. split.
+  - split; [reflexivity|]. intros c Hc.
+    assert (forallb (fun c => negb (replaced true c)) (toy_dumps (m_to_json toy_enc 0 good_msg)) = true) as F
+      by (vm_compute; reflexivity).
+    rewrite forallb_forall in F. apply negb_true_iff. exact (F c Hc).
+  - split; [apply wf_msgb_ok; vm_compute; reflexivity|]. split; [constructor|]. split.
+    + intros b Pb. assert (packed good_msg = Ok good_query) as E by (vm_compute; reflexivity).
+      rewrite E in Pb. inversion Pb; subst b. vm_compute. reflexivity.
+    + vm_compute. reflexivity.
 Qed.
